@@ -304,3 +304,10 @@ def run(ctx):
     borrow(ctx, 'C16', ['FD-VALID'], 'a failed sf_open must leave no descriptor behind, including descriptor 0')
 
     borrow(ctx, 'C03', ['TABLE-INDEX'], 'an index argument of a command (SFC_GET_FORMAT_MAJOR, SFC_GET_SIMPLE_FORMAT, error numbers ...) that is out of range must be refused, not used as a table subscript')
+
+    ctx.rule('WH-DIV', 'every integer division / modulo in a write_header hook (or a static helper it calls) whose divisor is a caller-supplied SF_INFO field (psf->sf.samplerate, psf->sf.channels) is '
+             'unreachable with that field < 1: on the branch of psf_open_file taken for SFM_WRITE / SFM_RDWR on an empty file, a rejecting test for `field < 1` (directly, or inside '
+             'sf_format_check) sits before the container is dispatched - validate_sfinfo runs only after the header writer - or the writer tests the field itself', floor=10)
+    from engine.whdiv import wh_div
+    n_wd = wh_div(ctx, prog)
+    ctx.require(n_wd >= 10, 'only %d divisions by SF_INFO fields found in the header writers' % n_wd)
